@@ -60,7 +60,7 @@ theorem parseOpcodes_reconstructs (ctx : Ctx) (d : Bytes) (r : FrbRec) (regs reg
 /-! ### every statement once and in order; no raw jump left -/
 
 theorem codeStmts_simple (c : Node) (h : simpleCode c = true) : codeStmts c = [c] := by
-  obtain ⟨_, _, h1, h2⟩ := simpleCode_spec h
+  obtain ⟨_, _, h1, h2, _⟩ := simpleCode_spec h
   cases c <;> first | (exact absurd rfl h1) | (exact absurd rfl h2) | rfl
 
 mutual
